@@ -428,9 +428,11 @@ class Interp:
         else:
             raise ModelLimit("param " + k)
 
+    type_checks = True
     def check_hint(self, target, v):
-        if len(target) > 2 and target[2] is not None:
-            raise ModelLimit("type hints are modelled by the C16 grid")
+        if len(target) > 2 and target[2] is not None and self.type_checks:
+            if not self.hint_matches(target[2], v):
+                raise RuntimeErr("hint", "expected " + target[2])
 
     def unpack_strict(self, pats, v, env):
         """Nested argument unpacking: size must match (guide), `rest...` collects."""
@@ -567,6 +569,7 @@ class Interp:
         raise RuntimeErr("type", "not iterable")
     def assign_target(self, t, x, env):
         if t[0] == "var":
+            self.check_hint(t, x)
             env[t[1]] = x
         elif t[0] == "ignore":
             pass
